@@ -844,4 +844,82 @@ theorem obsTrace_inv (cfg : Cfg) : ∀ (blocks : List (List EvR)) (m : MState), 
     · exact ⟨_, _, h1, e⟩
     · exact ih _ h1 o e
 
+/-! ### round 8: the pinset entry of a cid only changes by an instruction for that cid -/
+
+/-- the event is an instruction that rewrites the pinset entry of `c` -/
+def touches (c : Nat) : Ev → Bool
+  | .track p => p.cid == c
+  | .untrack c' => c' == c
+  | _ => false
+
+theorem trackNew_shared (s : State) (p : PinSpec) (typ : OpType) (ph : Phase) : (trackNew s p typ ph).1.shared = s.shared := by
+  unfold trackNew
+  cases s.cur p.cid with
+  | none => rfl
+  | some i => simp only []; split_ifs <;> rfl
+
+theorem track_shared (cfg : Cfg) (s : State) (p : PinSpec) : (track cfg s p).1.shared = upd s.shared p.cid (some p) := by
+  unfold track
+  cases hk : p.kind with
+  | sharded => rfl
+  | here =>
+    simp only []
+    rw [enqueue_shared cfg _ p .pin (by intro e; cases e)]
+  | remote =>
+    simp only []
+    split
+    · next s1 heq =>
+      have := congrArg (fun r => r.1.shared) heq
+      simp only [trackNew_shared] at this
+      exact this.symm
+    · next s1 i heq =>
+      have := congrArg (fun r => r.1.shared) heq
+      simp only [trackNew_shared] at this
+      exact this.symm
+
+theorem step_shared_untouched (cfg : Cfg) (s : State) (e : Ev) (c : Nat) (he : touches c e = false) :
+    (step cfg s e).shared c = s.shared c := by
+  cases e with
+  | track p =>
+    have hne : c ≠ p.cid := by
+      intro h; simp [touches, h] at he
+    show (track cfg s p).1.shared c = s.shared c
+    rw [track_shared]
+    simp only [upd_apply, hne, if_false]
+  | untrack c' =>
+    have hne : c ≠ c' := by
+      intro h; simp [touches, h] at he
+    show (untrack cfg s c').1.shared c = s.shared c
+    unfold untrack
+    rw [enqueue_shared cfg _ (pinCid c') .unpin (by intro e; cases e)]
+    simp only [upd_apply, hne, if_false]
+  | recover c' =>
+    show (recoverWith cfg s c' (statusOf s c')).1.shared c = s.shared c
+    rw [recoverWith_shared]
+  | deqPin => rw [internal_shared cfg s _ rfl]
+  | deqUnpin => rw [internal_shared cfg s _ rfl]
+  | effect i => rw [internal_shared cfg s _ rfl]
+  | retOk i => rw [internal_shared cfg s _ rfl]
+  | retErr i => rw [internal_shared cfg s _ rfl]
+  | reap i => rw [internal_shared cfg s _ rfl]
+  | lose c' => rw [internal_shared cfg s _ rfl]
+
+theorem run_shared_untouched (cfg : Cfg) (c : Nat) : ∀ (es : List Ev) (s : State), (∀ e ∈ es, touches c e = false) →
+    (run cfg s es).shared c = s.shared c := by
+  intro es
+  induction es with
+  | nil => intro s _; rfl
+  | cons e es ih =>
+    intro s he
+    have := ih (step cfg s e) (fun e' h' => he e' (List.mem_cons_of_mem _ h'))
+    show (run cfg (step cfg s e) es).shared c = s.shared c
+    rw [this]; exact step_shared_untouched cfg s e c (he e List.mem_cons_self)
+
+theorem reachable_run8 (cfg : Cfg) : ∀ (es : List Ev) (s : State), Reachable cfg s → Reachable cfg (run cfg s es) := by
+  intro es
+  induction es with
+  | nil => intro s h; exact h
+  | cons e es ih => intro s h; exact ih (step cfg s e) (.step e h)
+
+
 end CV.C05
